@@ -123,7 +123,7 @@ def check_report(ctx, cfg, e, elems_conv, case, tag):
         ctx.violation("%s:reported-value-does-not-violate-the-reported-limit" % tag, dict(case, operator=e.operator, limit=e.limit_value, value=e.value), replay=case)
     if not any((c == e.value) or (c != c and e.value != e.value) or (math.isfinite(c) and abs(c - e.value) <= 1e-9 * max(1.0, abs(c))) for c in elems_conv):
         ctx.violation("%s:reported-value-is-no-element" % tag, dict(case, value=e.value, converted_elements=elems_conv[:6]), replay=case)
-    if str(e.limit_value) not in str(e) and repr(e.limit_value) not in str(e):
+    if str(e.limit_value) not in str(e) and repr(e.limit_value) not in str(e) and "%g" % e.limit_value not in str(e):
         ctx.violation("%s:message-lacks-limit" % tag, dict(case, message=str(e)[:200]), replay=case)
 
 
@@ -180,9 +180,8 @@ def scalar_verdicts(ctx, db, aff, cfg, u, x):
     elif msg is not None and x == x:
         b = broken_limit(cv, cfg)
         if b is not None and want != "ambiguous":
-            lit = {">": "greater than", "<": "less than", ">=": "greater or equal to", "<=": "less or equal to"}
-            legal = [(lit[">" if cfg["min_excl"] else ">="], cfg["min"]), (lit["<" if cfg["max_excl"] else "<="], cfg["max"])]
-            if not any(l is not None and (w + " " + repr(l)) in msg for w, l in legal):
+            # the message names a limit of the category (how the operator is worded is not demanded)
+            if not any(l is not None and (repr(l) in msg or "%g" % l in msg) for l in (cfg["min"], cfg["max"])):
                 ctx.violation("validator-message-names-no-limit", dict(case, message=msg), replay=case)
     if math.isfinite(x):
         try:
